@@ -51,7 +51,7 @@ MANIFEST = {
             "the floor); floating-point rounding of the real code is not modelled (times are exact rationals); the "
             "event limiter/filter in normalize_phase1 are not modelled (C17; traces have ts+dur>=0); the theorem "
             "excludes, via fguard, exactly the inputs on which frequency_stats divides by zero (Exec slice of "
-            "duration 0 or at the host time of the rank's previous Exec slice) - the code raises ZeroDivisionError "
+            "duration 0; until /repo fix C02d also one at the host time of the rank's previous Exec slice) - the code raises ZeroDivisionError "
             "there and so does the model; C05_two_phase is stated for exception-free runs and for the three stages "
             "alone (the other stages of the pipeline are covered by the end-to-end tie only).",
     "technique": "Coq proof (induction over the event list with a table invariant; lia with euclidean division; "
@@ -73,8 +73,8 @@ ASSUMPTIONS = [
     "per device slice: c1<=c2<=c3<=c4<=c5 true counters, c5-c1 < 2^32, args.TSk = ck mod 2^32 given as strings, "
     "host ts = H(rank) + c_ref/f exactly (c_ref by phase: DmaI TS1, Prep TS2, Exec TS3, DmaO TS4, other TS1)",
     "f > 0; rank = queue = hash(pid); all jobs of a rank share the rank's host epoch and counter",
-    "no Exec slice has duration 0 or the same host ts as the rank's previous Exec slice (else the code raises "
-    "ZeroDivisionError in frequency_stats; the model agrees)",
+    "no Exec slice has duration 0 (else the code raises ZeroDivisionError in frequency_stats; the model agrees; "
+    "ingestion removes such slices before they get there)",
     "host timestamps are >= 0 (default event limiter) and events are X slices (B/E pairs are C15's business)",
     "default or 'everything' profile (the barrier between the phases is enabled); --tb/torch_minimal disables it",
 ]
@@ -411,7 +411,7 @@ def valid(case):
         if hs.setdefault(q, e.get("H")) != e.get("H") or e["ts"] != e["H"] + cs[ref_of(e["name"])] / case["f"]:
             return False
         if "Cmpt Exec" in e["name"]:
-            if e["dur"] == 0 or last_exec.get(q) == e["ts"]:
+            if e["dur"] == 0:          # (an equal host ts of two Exec slices is in the domain since /repo fix C02d)
                 return False
             last_exec[q] = e["ts"]
     return True
